@@ -1,6 +1,8 @@
 package keyproof
 
 import (
+	"fmt"
+
 	"github.com/privacybydesign/gabi/big"
 	"github.com/privacybydesign/gabi/internal/common"
 	"github.com/privacybydesign/gabi/zkproof"
@@ -35,6 +37,16 @@ func vpGroup() zkproof.Group {
 	g.PMod.Set(g.P)
 	g.OrderMod.Set(g.Order)
 	return g
+}
+
+// two 96-bit safe primes for native replays
+const vpSafeP, vpSafeQ = "61449930866110332855357088823", "64768333194008919977202027947"
+
+func vpNativeModulus() (N, phi *big.Int) {
+	p, _ := new(big.Int).SetString(vpSafeP, 10)
+	q, _ := new(big.Int).SetString(vpSafeQ, 10)
+	one := big.NewInt(1)
+	return new(big.Int).Mul(p, q), new(big.Int).Mul(new(big.Int).Sub(p, one), new(big.Int).Sub(q, one))
 }
 
 func vpSameList(a, b []*big.Int) bool {
@@ -151,4 +163,385 @@ func vpC17_O1() {
 	} else {
 		vpAssert("a core proof with an altered leaf is rejected", !accepted)
 	}
+}
+
+func init() {
+	vpHarnesses["vpC17_O2"] = vpC17_O2
+	vpHarnesses["vpC17_O3"] = vpC17_O3
+	vpHarnesses["vpC17_O5"] = vpC17_O5
+}
+
+func vpAddBig(x, d *big.Int) *big.Int { return new(big.Int).Add(x, d) }
+
+// vpTamperRange alters one leaf of a range proof: entry i of the list of secret `name`.
+func vpTamperRange(rp RangeProof, name string, i int, d *big.Int) {
+	rp.Results[name][i] = vpAddBig(rp.Results[name][i], d)
+}
+
+// C17-O2: the cut-and-choose range proof (rangeProofStructure) on a Pedersen
+// commitment, rounds reduced by a source override (stated bound; the rounds are
+// identical), challenge = the real hash of the commitment list. Completeness:
+// for every value of at most l2 bits the verifier's list equals the prover's
+// and the structure check passes. Rejection: one altered response (of the range
+// secret or of the hider, any round), a missing or nil entry, a response at or
+// above the size limit, another challenge.
+func vpC17_O2() {
+	g := vpGroup()
+	const l2 = 16
+	ped := newPedersenStructure("x")
+	rs := newPedersenRangeProofStructure("x", 0, l2)
+	v := vpBigBits("x", l2)
+	vpAssume(v.Sign() >= 0)
+	list, pc := ped.commitmentsFromSecrets(g, nil, v)
+	bases := zkproof.NewBaseMerge(&g, &pc)
+	list, rc := rs.commitmentsFromSecrets(g, list, &bases, &pc)
+	challenge := common.HashCommit(list, false)
+	pp := ped.buildProof(g, challenge, pc)
+	rp := rs.buildProof(g, challenge, rc, &pc)
+
+	rounds := len(rp.Results["x"])
+	vpAssert("range proof has one response per round and secret", rounds == rangeProofIters && len(rp.Results["x_hider"]) == rounds)
+	tamper := vpChoose("tamper", 8)
+	d := vpBigRange("delta", big.NewInt(1), new(big.Int).Lsh(big.NewInt(1), 100))
+	structureBroken := false
+	vchallenge := challenge
+	switch tamper {
+	case 1:
+		vpTamperRange(rp, "x", vpChoose("round", rounds), d)
+	case 2:
+		vpTamperRange(rp, "x_hider", vpChoose("round", rounds), d)
+	case 3:
+		rp.Results["x"] = rp.Results["x"][:rounds-1]
+		structureBroken = true
+	case 4:
+		rp.Results["x_hider"][vpChoose("round", rounds)] = nil
+		structureBroken = true
+	case 5: // a response at or above 2^(l2+epsilon+2)
+		rp.Results["x"][vpChoose("round", rounds)] = vpAddBig(new(big.Int).Lsh(big.NewInt(1), l2+rangeProofEpsilon+2), vpBigBits("excess", 20))
+		structureBroken = true
+	case 6:
+		vchallenge = vpAddBig(challenge, d)
+	case 7:
+		delete(rp.Results, "x_hider")
+		structureBroken = true
+	}
+	structureOK := ped.verifyProofStructure(pp) && rs.verifyProofStructure(rp)
+	if structureBroken {
+		vpAssert("a range proof with a missing, nil or oversized response fails the structure check", !structureOK)
+		return
+	}
+	vpAssert("range proof structure check passes", structureOK)
+	pp.setName("x")
+	vbases := zkproof.NewBaseMerge(&g, &pp)
+	vlist := ped.commitmentsFromProof(g, nil, vchallenge, pp)
+	vlist = rs.commitmentsFromProof(g, vlist, vchallenge, &vbases, rp)
+	accepted := vchallenge.Cmp(common.HashCommit(vlist, false)) == 0
+	if tamper == 0 {
+		vpAssert("honest range proof: reconstructed commitments equal the prover's", vpSameList(list, vlist))
+		vpAssert("honest range proof is accepted", accepted)
+	} else {
+		vpAssert("a range proof with an altered leaf is rejected", !accepted)
+	}
+}
+
+// vpPed commits to a value under a name, as the surrounding proofs do.
+func vpPed(g zkproof.Group, list []*big.Int, name string, v *big.Int) ([]*big.Int, pedersenStructure, pedersenCommit) {
+	s := newPedersenStructure(name)
+	list, c := s.commitmentsFromSecrets(g, list, v)
+	return list, s, c
+}
+
+// C17-O3: multiplication and addition proofs (m1*m2 = r and a1+a2 = r modulo a
+// committed modulus, with their range proofs). For arbitrary 8-bit operands and
+// quotient k (r = m1*m2 - k*mod resp. a1+a2+k*mod): completeness; rejection of
+// an altered leaf (Pedersen commitment, hider/mod response, a range response)
+// and of a prover whose committed result differs from the true one.
+func vpC17_O3() {
+	g := vpGroup()
+	const l = 16
+	add := vpBool("addition")
+	x1, x2 := vpBigBits("x1", 8), vpBigBits("x2", 8)
+	mod := big.NewInt(251)
+	k := vpBigBits("k", 8)
+	vpAssume(x1.Sign() >= 0 && x2.Sign() >= 0 && k.Sign() >= 0)
+	var r *big.Int
+	if add {
+		r = new(big.Int).Add(new(big.Int).Add(x1, x2), new(big.Int).Mul(k, mod))
+	} else {
+		r = new(big.Int).Sub(new(big.Int).Mul(x1, x2), new(big.Int).Mul(k, mod))
+	}
+	cheat := vpBool("wrongResult")
+	if cheat {
+		r = vpAddBig(r, vpBigRange("dr", big.NewInt(1), big.NewInt(250)))
+	}
+	var list []*big.Int
+	list, s1, c1 := vpPed(g, list, "x1", x1)
+	list, s2, c2 := vpPed(g, list, "x2", x2)
+	list, sm, cm := vpPed(g, list, "mod", mod)
+	list, sr, cr := vpPed(g, list, "r", r)
+	bases := zkproof.NewBaseMerge(&g, &c1, &c2, &cm, &cr)
+	secrets := zkproof.NewSecretMerge(&c1, &c2, &cm, &cr)
+	ms := newMultiplicationProofStructure("x1", "x2", "mod", "r", l)
+	as := newAdditionProofStructure("x1", "x2", "mod", "r", l)
+	var mc multiplicationProofCommit
+	var ac additionProofCommit
+	if add {
+		list, ac = as.commitmentsFromSecrets(g, list, &bases, &secrets)
+	} else {
+		list, mc = ms.commitmentsFromSecrets(g, list, &bases, &secrets)
+	}
+	challenge := common.HashCommit(list, false)
+	p1, p2, pm, pr := s1.buildProof(g, challenge, c1), s2.buildProof(g, challenge, c2), sm.buildProof(g, challenge, cm), sr.buildProof(g, challenge, cr)
+	var mp MultiplicationProof
+	var ap AdditionProof
+	if add {
+		ap = as.buildProof(g, challenge, ac, &secrets)
+	} else {
+		mp = ms.buildProof(g, challenge, mc, &secrets)
+	}
+	tamper := 0
+	if !cheat {
+		tamper = vpChoose("tamper", 5)
+	}
+	d := vpBigRange("delta", big.NewInt(1), new(big.Int).Lsh(big.NewInt(1), 100))
+	switch tamper {
+	case 1:
+		pr.Commit = vpAddBig(pr.Commit, d)
+	case 2:
+		if add {
+			ap.HiderProof.Result = vpAddBig(ap.HiderProof.Result, d)
+		} else {
+			mp.Hider.Result = vpAddBig(mp.Hider.Result, d)
+		}
+	case 3:
+		if add {
+			ap.ModAddProof.Result = vpAddBig(ap.ModAddProof.Result, d)
+		} else {
+			mp.ModMultProof.Commit = vpAddBig(mp.ModMultProof.Commit, d)
+		}
+	case 4:
+		if add {
+			vpTamperRange(ap.RangeProof, as.addRange.rangeSecret, vpChoose("round", rangeProofIters), d)
+		} else {
+			vpTamperRange(mp.RangeProof, ms.modMultRange.rangeSecret, vpChoose("round", rangeProofIters), d)
+		}
+	}
+	if add {
+		vpAssert("addition proof structure check passes", as.verifyProofStructure(ap))
+	} else {
+		vpAssert("multiplication proof structure check passes", ms.verifyProofStructure(mp))
+	}
+	p1.setName("x1")
+	p2.setName("x2")
+	pm.setName("mod")
+	pr.setName("r")
+	vbases := zkproof.NewBaseMerge(&g, &p1, &p2, &pm, &pr)
+	vproofs := zkproof.NewProofMerge(&p1, &p2, &pm, &pr)
+	var vlist []*big.Int
+	vlist = s1.commitmentsFromProof(g, vlist, challenge, p1)
+	vlist = s2.commitmentsFromProof(g, vlist, challenge, p2)
+	vlist = sm.commitmentsFromProof(g, vlist, challenge, pm)
+	vlist = sr.commitmentsFromProof(g, vlist, challenge, pr)
+	if add {
+		vlist = as.commitmentsFromProof(g, vlist, challenge, &vbases, &vproofs, ap)
+	} else {
+		vlist = ms.commitmentsFromProof(g, vlist, challenge, &vbases, &vproofs, mp)
+	}
+	accepted := challenge.Cmp(common.HashCommit(vlist, false)) == 0
+	switch {
+	case cheat:
+		vpAssert("an arithmetic proof for a wrong result is rejected", !accepted)
+	case tamper == 0:
+		vpAssert("honest arithmetic proof: reconstructed commitments equal the prover's", vpSameList(list, vlist))
+		vpAssert("honest arithmetic proof is accepted", accepted)
+	default:
+		vpAssert("an arithmetic proof with an altered leaf is rejected", !accepted)
+	}
+}
+
+// C17-O5: the square-free proof (Gennaro-Micciancio-Rabin) run from its real
+// code in the algebraic model: N an arbitrary modulus, phi its group order,
+// responses c_i^(1/N). Completeness; rejection after altering one response,
+// the challenge, the proof index, or the number of responses.
+func vpC17_O5() {
+	var N, phi *big.Int
+	if vpNative() {
+		// natively a product of two 96-bit safe primes (N = 5 mod 8, gcd(N, phi) = 1)
+		N, phi = vpNativeModulus()
+	} else {
+		N = vpModulus("sfN", 256)
+		phi = vpOrder("sfPhi", N)
+	}
+	challenge := vpBigBits("challenge", 256)
+	index := big.NewInt(int64(vpChoose("index", 4)))
+	proof := squareFreeBuildProof(N, phi, challenge, index)
+	vpAssert("square-free proof has one response per round", squareFreeVerifyStructure(proof) && len(proof.Responses) == squareFreeIters)
+	vchallenge, vindex := challenge, index
+	tamper := vpChoose("tamper", 5)
+	d := vpBigRange("delta", big.NewInt(1), big.NewInt(1<<30))
+	switch tamper {
+	case 1:
+		i := vpChoose("round", squareFreeIters)
+		proof.Responses[i] = vpAddBig(proof.Responses[i], d)
+	case 2:
+		vchallenge = vpAddBig(challenge, d)
+	case 3:
+		vindex = vpAddBig(index, big.NewInt(1))
+	case 4:
+		proof.Responses = proof.Responses[:squareFreeIters-1]
+	}
+	ok := squareFreeVerifyProof(N, vchallenge, vindex, proof)
+	if tamper == 0 {
+		vpAssert("honest square-free proof verifies", ok)
+	} else {
+		vpAssert("an altered square-free proof is rejected", !ok)
+	}
+}
+
+func init() {
+	vpHarnesses["vpC17_O4"] = vpC17_O4
+}
+
+// C17-O4: one exponentiation step, the OR-composition of "bit = 0 and post =
+// pre" (A) with "bit = 1 and post = pre*mul mod m" (B) by XOR-split challenges;
+// the branch that does not hold is simulated. For both branches and arbitrary
+// 8-bit values: completeness; rejection when a sub-challenge, a response or a
+// commitment of either branch is altered, when the two sub-challenges do not
+// XOR to the challenge, and when neither statement holds (bit = 0 with post !=
+// pre, bit = 1 with a wrong product, bit = 2).
+func vpC17_O4() {
+	g := vpGroup()
+	const l = 16
+	bitv := vpChoose("bit", 3)
+	pre, mul := vpBigBits("pre", 8), vpBigBits("mul", 8)
+	vpAssume(pre.Sign() >= 0 && mul.Sign() >= 0)
+	mod := big.NewInt(251)
+	k := vpBigBits("k", 8)
+	vpAssume(k.Sign() >= 0)
+	var post *big.Int
+	if bitv == 0 {
+		post = new(big.Int).Set(pre)
+	} else {
+		post = new(big.Int).Sub(new(big.Int).Mul(pre, mul), new(big.Int).Mul(k, mod))
+	}
+	cheat := bitv == 2
+	if bitv != 2 && vpBool("wrongPost") {
+		post = vpAddBig(post, vpBigRange("dpost", big.NewInt(1), big.NewInt(250)))
+		cheat = true
+	}
+	var list []*big.Int
+	list, sb, cb := vpPed(g, list, "bit", big.NewInt(int64(bitv)))
+	list, spre, cpre := vpPed(g, list, "pre", pre)
+	list, spost, cpost := vpPed(g, list, "post", post)
+	list, smul, cmul := vpPed(g, list, "mul", mul)
+	list, smod, cmod := vpPed(g, list, "mod", mod)
+	bases := zkproof.NewBaseMerge(&g, &cb, &cpre, &cpost, &cmul, &cmod)
+	secrets := zkproof.NewSecretMerge(&cb, &cpre, &cpost, &cmul, &cmod)
+	es := newExpStepStructure("bit", "pre", "post", "mul", "mod", l)
+	list, ec := es.commitmentsFromSecrets(g, list, &bases, &secrets)
+	challenge := common.HashCommit(list, false)
+	pb, ppre, ppost := sb.buildProof(g, challenge, cb), spre.buildProof(g, challenge, cpre), spost.buildProof(g, challenge, cpost)
+	pmul, pmod := smul.buildProof(g, challenge, cmul), smod.buildProof(g, challenge, cmod)
+	ep := es.buildProof(g, challenge, ec, &secrets)
+
+	tamper := 0
+	if !cheat {
+		tamper = vpChoose("tamper", 7)
+	}
+	d := vpBigRange("delta", big.NewInt(1), new(big.Int).Lsh(big.NewInt(1), 100))
+	switch tamper {
+	case 1:
+		ep.Achallenge = vpAddBig(ep.Achallenge, d)
+	case 2:
+		ep.Bchallenge = vpAddBig(ep.Bchallenge, d)
+	case 3:
+		ep.Aproof.Bit.Result = vpAddBig(ep.Aproof.Bit.Result, d)
+	case 4:
+		ep.Aproof.EqualityHider.Result = vpAddBig(ep.Aproof.EqualityHider.Result, d)
+	case 5:
+		ep.Bproof.Bit.Result = vpAddBig(ep.Bproof.Bit.Result, d)
+	case 6:
+		ep.Bproof.Mul.Commit = vpAddBig(ep.Bproof.Mul.Commit, d)
+	}
+	structureOK := es.verifyProofStructure(challenge, ep)
+	if tamper == 1 || tamper == 2 {
+		vpAssert("sub-challenges that do not XOR to the challenge fail the structure check", !structureOK)
+		return
+	}
+	vpAssert("exponentiation step structure check passes", structureOK)
+	pb.setName("bit")
+	ppre.setName("pre")
+	ppost.setName("post")
+	pmul.setName("mul")
+	pmod.setName("mod")
+	vbases := zkproof.NewBaseMerge(&g, &pb, &ppre, &ppost, &pmul, &pmod)
+	var vlist []*big.Int
+	vlist = sb.commitmentsFromProof(g, vlist, challenge, pb)
+	vlist = spre.commitmentsFromProof(g, vlist, challenge, ppre)
+	vlist = spost.commitmentsFromProof(g, vlist, challenge, ppost)
+	vlist = smul.commitmentsFromProof(g, vlist, challenge, pmul)
+	vlist = smod.commitmentsFromProof(g, vlist, challenge, pmod)
+	vlist = es.commitmentsFromProof(g, vlist, challenge, &vbases, ep)
+	accepted := challenge.Cmp(common.HashCommit(vlist, false)) == 0
+	switch {
+	case cheat:
+		vpAssert("an exponentiation step of which neither branch holds is rejected", !accepted)
+	case tamper == 0:
+		vpAssert("honest exponentiation step: reconstructed commitments equal the prover's", vpSameList(list, vlist))
+		vpAssert("honest exponentiation step is accepted", accepted)
+	default:
+		vpAssert("an exponentiation step with an altered leaf is rejected", !accepted)
+	}
+}
+
+func init() {
+	vpHarnesses["vpC17_O6"] = vpC17_O6
+}
+
+// C17-O6: how quasiSafePrimeProductVerifyProof combines its parts. With the four
+// sub-verifiers returning arbitrary verdicts (symbolic booleans named after the
+// function, modulus and index they are called with), for moduli on both sides
+// of each gate - N = 5 (mod 8) or not; a prime factor 3, 31, 1021 (below the
+// minimum factor) or 1031 (above it) - the result is exactly: N = 5 (mod 8),
+// no factor below 1024, and all four sub-proofs accepted for this N with
+// indices 0, 1, 2, 3.
+func vpC17_O6() {
+	p, _ := new(big.Int).SetString(vpSafeP, 10)
+	q, _ := new(big.Int).SetString(vpSafeQ, 10)
+	if new(big.Int).Mod(p, big.NewInt(8)).Int64() != 3 {
+		p, q = q, p // p = 3, q = 7 (mod 8)
+	}
+	mul := func(a *big.Int, b int64) *big.Int { return new(big.Int).Mul(a, big.NewInt(b)) }
+	type cand struct {
+		N    *big.Int
+		gate bool
+	}
+	cands := []cand{
+		{new(big.Int).Mul(p, q), true},  // 5 mod 8, large factors
+		{new(big.Int).Mul(p, p), false}, // 1 mod 8
+		{new(big.Int).Set(p), false},    // 3 mod 8
+		{new(big.Int).Set(q), false},    // 7 mod 8
+		{mul(q, 3), false},              // 5 mod 8, factor 3
+		{mul(p, 31), false},             // 5 mod 8, factor 31
+		{mul(new(big.Int).Mul(p, p), 1021), false}, // 5 mod 8, factor 1021 (largest prime below the minimum)
+		{mul(p, 1031), true},            // 5 mod 8, factor 1031 (smallest prime above it)
+		{mul(new(big.Int).Mul(p, q), 2), false},    // even
+	}
+	var c cand
+	mi := vpChoose("modulus", len(cands))
+	c = cands[mi]
+	vpAssert("candidate moduli are on the intended side of the first gate", (new(big.Int).Mod(c.N, big.NewInt(8)).Int64() == 5) == (c.gate || (mi >= 4 && mi <= 6)))
+	challenge := vpBigBits("challenge", 256)
+	var proof QuasiSafePrimeProductProof
+	got := quasiSafePrimeProductVerifyProof(c.N, challenge, proof)
+	if vpNative() {
+		// natively the empty proof is rejected by the real sub-verifiers: only rejection can be observed
+		vpAssert("quasi-safe-prime-product verdict is the conjunction of gates and sub-proofs", !got)
+		return
+	}
+	want := c.gate
+	for i, fn := range []string{"squareFreeVerifyProof", "primePowerProductVerifyProof", "disjointPrimeProductVerifyProof", "almostSafePrimeProductVerifyProof"} {
+		want = want && vpBool(fmt.Sprintf("verdict_%s_N%s_idx%d", fn, c.N.String(), i))
+	}
+	vpAssert("quasi-safe-prime-product verdict is the conjunction of gates and sub-proofs", got == want)
 }
